@@ -10,6 +10,7 @@ import (
 	cfg "github.com/lianxiangcloud/linkchain/config"
 	"github.com/lianxiangcloud/linkchain/libs/common"
 	lktypes "github.com/lianxiangcloud/linkchain/libs/cryptonote/types"
+	"github.com/lianxiangcloud/linkchain/libs/cryptonote/ringct"
 	"github.com/lianxiangcloud/linkchain/libs/cryptonote/xcrypto"
 	"github.com/lianxiangcloud/linkchain/libs/ser"
 	"github.com/lianxiangcloud/linkchain/types"
@@ -291,7 +292,7 @@ func TestTamperRejected(t *testing.T) {
 		}
 
 		op := rapid.SampledFrom([]string{"inflate-input-ring1", "inflate-input-ringN", "outpk-inflated", "fee-lowered", "aout-amount", "aout-commit",
-			"proof-corrupt-a2u", "proof-swap-a2u", "ain-amount", "ain-commit", "pseudo-out-shift"}).Draw(t, "op")
+			"proof-corrupt-a2u", "proof-swap-a2u", "ain-amount", "ain-commit", "pseudo-out-shift", "ain-split", "ain-split"}).Draw(t, "op")
 		vstat.Label("op_" + op)
 		var bad types.Tx
 		delta := new(big.Int).Mul(big.NewInt(int64(rapid.IntRange(1, 1000000).Draw(t, "delta"))), world.UTXOUnit)
@@ -362,7 +363,7 @@ func TestTamperRejected(t *testing.T) {
 				}
 			}
 			bad = tx
-		case "proof-corrupt-a2u", "proof-swap-a2u", "ain-amount", "ain-commit":
+		case "proof-corrupt-a2u", "proof-swap-a2u", "ain-amount", "ain-commit", "ain-split":
 			mk := func(label string) *types.UTXOTransaction {
 				from := s.Accts[0]
 				nonce := s.W.App.GetNonce(from.Addr)
@@ -389,6 +390,28 @@ func TestTamperRejected(t *testing.T) {
 				in := tx.Inputs[0].(*types.AccountInput)
 				in.Amount = new(big.Int).Sub(in.Amount, world.UTXOUnit)
 				tx.Sign(types.GlobalSTDSigner, s.Accts[0].Key)
+			case "ain-split":
+				// the one account input becomes 2-3 account inputs whose amounts and commitments add up to the original: the
+				// commitments still balance, so the question is whether EVERY one of the amounts is debited
+				in := tx.Inputs[0].(*types.AccountInput)
+				parts := rapid.IntRange(2, 3).Draw(t, "parts")
+				rest, restCF := new(big.Int).Set(in.Amount), in.CF
+				var ins []types.Input
+				for i := 1; i < parts; i++ {
+					a := new(big.Int).Mul(world.UTXOUnit, big.NewInt(int64(rapid.IntRange(1, 1000000).Draw(t, "splitunits"))))
+					cf := ringct.SkGen()
+					ins = append(ins, &types.AccountInput{Nonce: in.Nonce, Amount: a, CF: cf, Commit: types.AmountCommit(new(big.Int).Div(a, world.UTXOUnit), cf)})
+					rest.Sub(rest, a)
+					restCF = ringct.ScSub(lktypes.EcScalar(restCF), lktypes.EcScalar(cf))
+				}
+				first := &types.AccountInput{Nonce: in.Nonce, Amount: rest, CF: restCF, Commit: types.AmountCommit(new(big.Int).Div(rest, world.UTXOUnit), restCF)}
+				if rapid.Bool().Draw(t, "restfirst") {
+					ins = append([]types.Input{first}, ins...)
+				} else {
+					ins = append(ins, first)
+				}
+				tx.Inputs = ins
+				tx.Sign(types.GlobalSTDSigner, s.Accts[0].Key)
 			case "ain-commit":
 				in := tx.Inputs[0].(*types.AccountInput)
 				in.Commit, _ = xcrypto.AddKeys(in.Commit, xcrypto.ScalarmultH(deltaKey))
@@ -413,6 +436,40 @@ func TestTamperRejected(t *testing.T) {
 		var injected types.Tx = bad
 		if u, ok := bad.(*types.UTXOTransaction); ok {
 			injected = freshCopy(u)
+		}
+		if op == "ain-split" {
+			// not unbalanced by construction: accepting it is fine IF the sender pays every account input.  So the block is
+			// committed by the honest validator when it accepts it, and the sender's books are read.
+			want := new(big.Int)
+			for _, in := range injected.(*types.UTXOTransaction).Inputs {
+				want.Add(want, in.(*types.AccountInput).Amount)
+			}
+			sender := s.Accts[0].Addr
+			before := new(big.Int).Set(honest.App.GetLatestStateDB().GetBalance(sender))
+			blk := attacker.BlockOf(types.Txs{injected}, world.GenesisTime+1000, cfg.ContractFoundationAddr)
+			var pan interface{}
+			func() {
+				defer func() { pan = recover() }()
+				attacker.App.PreRunBlock(blk)
+			}()
+			accepted := false
+			if pan == nil {
+				if cp, err := world.CopyBlock(blk); err == nil && honest.Check(cp) {
+					hasTx := len(cp.Data.Txs) == 1
+					if err := honest.Commit(cp); err == nil && hasTx {
+						accepted = true
+						debit := new(big.Int).Sub(before, honest.App.GetLatestStateDB().GetBalance(sender))
+						// a transaction that failed inside the block moves nothing and creates nothing
+						created := honest.UtxoStore.GetMaxUtxoOutputSeq(common.EmptyAddress) > s.W.UtxoStore.GetMaxUtxoOutputSeq(common.EmptyAddress)
+						if created && debit.Cmp(want) < 0 {
+							vstat.Violation(t, P, "value-created:account-inputs-not-all-debited", "a confidential transaction with %d account inputs worth %v in total (their commitments balance the outputs and the fee) is accepted and creates its outputs, but the sender is debited only %v", len(injected.(*types.UTXOTransaction).Inputs), want, debit)
+						}
+					}
+				}
+			}
+			vstat.Label(fmt.Sprintf("ain_split_accepted_%v_admission_%v", accepted, basicErr == nil))
+			vstat.NonTrivial(fmt.Sprintf("%s|%v|%v", op, want, bad.Hash().Hex()))
+			return
 		}
 		accepted, note := acceptedByValidator(attacker, honest, injected)
 		vstat.NonTrivial(fmt.Sprintf("%s|%v|%v", op, delta, bad.Hash().Hex()))
